@@ -1,8 +1,14 @@
 use std::alloc::Layout;
 use std::mem::MaybeUninit;
 use std::panic::{AssertUnwindSafe, catch_unwind, resume_unwind};
+#[cfg(folo_verif)]
+use std::sync::Arc;
+#[cfg(not(folo_verif))]
 use std::sync::{Arc, MutexGuard};
 
+
+#[cfg(folo_verif)]
+use crate::verif_sync::MutexGuard;
 use crate::{
     BlindPoolCore, BlindPoolInnerMap, BlindPooledMut, LayoutKey, NEVER_POISONED, RawOpaquePool,
     RawOpaquePoolThreadSafe,
